@@ -47,10 +47,30 @@ def hyp_case(draw, max_len):
     return {"seq": s, "respell": alt, "warm": warm}
 
 
+def few_charge_cases(tier, seed):
+    """0, 1, 2 or 3 charged residues at seed-chosen positions for every length 1..400 (2 charges: every length; others: every 7th);
+    plus long sequences whose length is a power of two or next to one, with charged termini."""
+    import random
+    rnd = random.Random(seed + 41)
+    for N in range(1, 401):
+        for c in (2,) if N % 7 else (0, 1, 2, 3):
+            if c > N:
+                continue
+            lst = [rnd.choice(ref.NEUTRAL) for _ in range(N)]
+            for p in rnd.sample(range(N), c):
+                lst[p] = rnd.choice("KRDE")
+            yield {"seq": "".join(lst)}
+    for N in ((511, 512, 513) if tier == "quick" else (511, 512, 513, 1023, 1024, 1025, 1026)):
+        body = [rnd.choice("GSEK" if i % 9 else "KE") for i in range(N)]
+        body[0], body[-1] = "K", "E"
+        yield {"seq": "".join(body)}
+
+
 def parts(tier):
     return [
         Part("enum-patterns", "enum", check=check_seq, cases=enum_cases, exhaustive=True,
              shards={"quick": 8, "thorough": 16}),
+        Part("enum-few-charges-and-lengths", "enum", check=check_seq, cases=few_charge_cases, exhaustive=False, shards={"quick": 16, "thorough": 16}),
         Part("hyp-sequences", "hyp", check=check_seq,
              strategy=lambda t: hyp_case(300 if t == "quick" else 500),
              examples={"quick": 6400, "thorough": 32000}, shards={"quick": 16, "thorough": 16}),
